@@ -3,7 +3,7 @@ from .grammar import line as line_rule
 from .program import Program
 from .stmt import (
     Block, IfBeginStmt, ElseStmt, ElseIfStmt, SelectStmt, CaseStmt,
-    CaseElseStmt,
+    CaseElseStmt, IfStmt,
 )
 from .exceptions import SyntaxError
 
@@ -32,6 +32,12 @@ def parse_string(input_string):
 
         for stmt in line_node.nodes:
             update_node_loc(stmt, line_loc)
+
+            if isinstance(stmt, IfStmt):
+                # the statements of a single-line IF cannot open,
+                # close or continue a block
+                check_single_line_if(
+                    stmt, block_start_types + block_end_types)
 
             if isinstance(stmt, block_start_types):
                 entered_blocks.append((stmt, cur_block_body))
@@ -77,6 +83,22 @@ def parse_string(input_string):
             msg=f'{block.node_name()} block not closed')
 
     return Program(cur_block_body)
+
+
+def check_single_line_if(if_stmt, block_stmt_types):
+    inner = list(if_stmt.then_stmts)
+    if if_stmt.else_clause:
+        inner += list(if_stmt.else_clause.stmts)
+    for stmt in inner:
+        if isinstance(stmt, IfStmt):
+            check_single_line_if(stmt, block_stmt_types)
+        elif isinstance(stmt, block_stmt_types) or \
+                isinstance(stmt, (ElseStmt, ElseIfStmt, CaseStmt,
+                                  CaseElseStmt)):
+            raise SyntaxError(
+                loc=stmt.loc_start,
+                msg=(f'{stmt.node_name()} not allowed in a '
+                     f'single-line IF'))
 
 
 def update_node_loc(node, offset):
